@@ -18,6 +18,7 @@ Require Import Fggs.Model.Axis Fggs.Model.PTensor Fggs.Model.AxisCheck Fggs.Mode
 Require Import Fggs.Proofs.Axis_sem Fggs.Proofs.PTensor_dense.
 Require Import Fggs.Proofs.Einsum_dense Fggs.Proofs.Einsum_support Fggs.Proofs.Einsum_form Fggs.Proofs.Einsum_views Fggs.Proofs.Einsum_reduce.
 Require Import Fggs.Proofs.Einsum_project Fggs.Proofs.Einsum_reindex Fggs.Proofs.Einsum_top.
+Require Import Fggs.Model.Trop Fggs.Model.XVal Fggs.Proofs.Einsum_argmax Fggs.Proofs.Einsum_vit Fggs.Proofs.Einsum_examples.
 Local Open Scope nat_scope.
 
 (** * (a) the dense specification *)
@@ -193,3 +194,71 @@ Theorem C07_mm_spec : forall (R : Type) (o : sr_ops R), sr_ring o -> forall (A B
   = sumS o (seq 0 n) (fun j => mul o (A [i; j]) (B [j; k])).
 Proof. exact @einsum_dense_mm. Qed.
 Print Assumptions C07_mm_spec.
+
+(** * (d) the Viterbi variant *)
+(** the value is the einsum in the tropical semiring: [C07_patterned_eq_dense_partial] with
+    [o := trop_ops].  Pointers: for every output cell with a backing element, the pointer tuple
+    computed from the physical argmax through [Axis.stride] is [eval] of the summed-out axes at
+    the physical pointer (extended through the substitution), and the product of the operand
+    entries at the pointed indices equals the value of the cell (which is the maximum by the
+    previous theorem). *)
+Theorem C07_argmax : forall (R : Type) (o : sr_ops R), sr_ring o ->
+  forall veqb : R -> R -> bool, (forall a b, veqb a b = true -> a = b) ->
+  forall leb : R -> R -> bool, (forall a b, add o a b = if leb a b then b else a) ->
+  forall genabled next ts0 inputs output r,
+  einsum_run o veqb genabled next ts0 inputs output = Ok r ->
+  er_failed r = false -> er_zero_axis r = false ->
+  Forall (st_ok (R:=R)) (er_ts r) ->
+  cert_operands o veqb r inputs output = true -> cert_subst r = true -> cert_views r = true ->
+  cert_viterbi r inputs output = true ->
+  forall oidx pi vp, length oidx = length output ->
+  index_list (er_outv r) [] oidx = IOk pi ->
+  viterbi_ptr_model o leb r output oidx = Ok vp ->
+  (exists rest pi', pop_all output (er_i2v r) = Some rest /\ In pi' (all_envs (kvars r)) /\
+      vp = map (eval (xt (er_sigma r) (cert_fuel (er_sigma r)) pi')) (map snd rest)) /\
+  einsum_term o (map (dn (R:=R)) (operands_of r)) inputs (combine output oidx ++ combine (summed_labels inputs output) vp)
+  = denote R (er_raw r) oidx.
+Proof. exact @viterbi_ptr_correct. Qed.
+Print Assumptions C07_argmax.
+
+(** the argmax returned for a selective addition attains the sum (= the maximum) *)
+Theorem C07_first_argmax_attains : forall (R : Type) (o : sr_ops R), sr_ring o ->
+  forall leb : R -> R -> bool, (forall a b, add o a b = if leb a b then b else a) ->
+  forall (l : list (list nat)) (f : list nat -> R) x,
+  first_argmax leb l f = Some x -> In x l /\ f x = sumS o l f.
+Proof. exact @first_argmax_attains. Qed.
+Print Assumptions C07_first_argmax_attains.
+
+(** a cell whose value is the semiring zero (no backing element: the default pointer 0) has only
+    zero terms, so every in-range pointer attains it *)
+Theorem C07_argmax_zero_cell : forall (R : Type) (o : sr_ops R),
+  (forall a b, add o a b = Semiring.zero o -> a = Semiring.zero o /\ b = Semiring.zero o) ->
+  forall ops inputs output oidx sv,
+  out_consistent output oidx = true -> einsum_dense o ops inputs output oidx = Semiring.zero o ->
+  In sv (all_assts (map (lval (label_sizes (map fst ops) inputs)) (summed_labels inputs output))) ->
+  einsum_term o ops inputs (combine output oidx ++ combine (summed_labels inputs output) sv) = Semiring.zero o.
+Proof. exact @einsum_dense_zero_terms. Qed.
+Print Assumptions C07_argmax_zero_cell.
+
+(** the tropical semiring satisfies both hypotheses *)
+Theorem C07_trop_selective : forall a b, tmax a b = if tleb a b then b else a.
+Proof. exact trop_selective. Qed.
+Print Assumptions C07_trop_selective.
+Theorem C07_trop_zero_sum_free : forall a b, tmax a b = NInf -> a = NInf /\ b = NInf.
+Proof. exact trop_zero_sum_free. Qed.
+Print Assumptions C07_trop_zero_sum_free.
+
+(** F23: log_viterbi_einsum_forward adds log-weights with torch's plain addition: +inf + -inf = nan,
+    where the semiring product (0 x inf = 0) is -inf.  Positive statement: [C07_argmax] (the model
+    multiplies in the semiring); the check reports the defect as a known finding. *)
+Theorem C07_viterbi_forward_add_refuted : xadd XPInf XNInf = XNaN /\ tplus TPInf NInf = NInf.
+Proof. exact viterbi_forward_add_refuted. Qed.
+Print Assumptions C07_viterbi_forward_add_refuted.
+
+(** F24: a repeated output index makes [index_to_vaxis.pop(index)] raise KeyError (model: [pop_all]
+    fails), although the specification is defined for it; with distinct output indices it succeeds *)
+Theorem C07_viterbi_repeated_output_refuted :
+  pop_all [0; 0] [(0, Phys 1 2)] = None /\ out_consistent [0; 0] [1; 1] = true /\
+  pop_all [0] [(0, Phys 1 2)] = Some [].
+Proof. exact viterbi_repeated_output_refuted. Qed.
+Print Assumptions C07_viterbi_repeated_output_refuted.
